@@ -80,6 +80,10 @@ type Judge struct {
 	Seq int
 	Idx int
 	Ops interface{}
+	// ConsistentHistory: the reports Drummer received come from one membership history per shard (ordered changes, a removed
+	// id never returns), as reports of real NodeHosts do. With arbitrary random reports an id can leave the view and come
+	// back, so an entry recorded while it was away names a member again: outside what C11 quantifies over.
+	ConsistentHistory bool
 }
 
 func (j *Judge) fail(prop, clause, sig, what string) {
@@ -264,7 +268,9 @@ func (j *Judge) Maintain(c *Context, res *drummer.VerifSchedResult, exhausted bo
 			e := dbx.DKill{ShardID: sid, ReplicaID: r.Change.Members[0], Address: r.RaftAddress}
 			kills[e]++
 			if v != nil {
-				if m, ok := v.Replicas[e.ReplicaID]; ok {
+				if m, ok := v.Replicas[e.ReplicaID]; ok && !j.ConsistentHistory {
+					run.Count("c11:recorded_stray_is_member_again_inconsistent_reports")
+				} else if ok {
 					j.fail("C11", "member_never_killed", "member-killed", fmt.Sprintf("kill request for (%d,%d) which is a member of the view (at %s)", sid, e.ReplicaID, m.Address))
 				}
 			}
